@@ -430,6 +430,10 @@ type PemFileContent struct {
 	Certificate *Certificate
 	PrivateKey  crypto.PrivateKey
 	Request     *CertificateRequest
+
+	//why a private key block of the file could not be used (nil if there was none).
+	//such a key is still somebody's key: it must not be mistaken for "no key"
+	UnusableKey error
 }
 
 func (c *CertificateRequest) WritePem(w io.Writer) error {
@@ -498,6 +502,9 @@ func ReadPem(pemBytes []byte) (PemFileContent, error) {
 				if err != nil {
 					if firstErr == nil {
 						firstErr = err
+					}
+					if pemFileContent.UnusableKey == nil {
+						pemFileContent.UnusableKey = err
 					}
 					continue
 				}
